@@ -592,7 +592,7 @@ def body(ck: common.Check):
     rng = ck.rng
     quick = ck.tier == "quick"
     cases = []
-    cases += gen_dirs(rng, 20 if quick else 120, "processes")
+    cases += gen_dirs(rng, 12 if quick else 120, "processes")
     proc_runs = gen_runs(rng, 6 if quick else 30, "exposure")
     for c in proc_runs:
         c["stream"], c["starts"] = "run-processes", rng.choice([2, 4, 8] if not quick else [2, 4])
@@ -600,9 +600,9 @@ def body(ck: common.Check):
     cases += gen_dirs(rng, 150 if quick else 1500, "sequential")
     cases += gen_dirs(rng, 60 if quick else 500, "threads")
     cases += directed_runs()
-    cases += gen_runs(rng, 60 if quick else 500, "exposure")
-    cases += gen_runs(rng, 24 if quick else 200, "sequential")
-    cases += gen_runs(rng, 12 if quick else 80, "parallel")
+    cases += gen_runs(rng, 45 if quick else 500, "exposure")
+    cases += gen_runs(rng, 18 if quick else 200, "sequential")
+    cases += gen_runs(rng, 8 if quick else 80, "parallel")
 
     reqs = []
     for c in cases:
